@@ -104,6 +104,14 @@ func Dot(zone, ip, ns, ttl, loc string) Line {
 	return Line{Text: fmt.Sprintf(".%s,%s,%s,%s,,%s", zone, ip, ns, ttl, loc), Loc: loc, Recs: recs}
 }
 
+// SOA2 builds a 'Z' line whose every rdata field and TTL differ from SOA's: the
+// second SOA of a name that has one tagged and one untagged.
+func SOA2(zone, loc string) Line {
+	return Line{Text: fmt.Sprintf("Z%s,b.ns.example.com,second.example.com,22,7222,1822,604822,122,322,,%s", zone, loc), Loc: loc,
+		Recs: []Rec{{Owner: strings.ToLower(zone), Type: dns.TypeSOA, Loc: loc}},
+		Alt:  fmt.Sprintf("Z%s,changed.other.org,hostmaster.example.com,2,7200,1800,604800,120,777,,%s", zone, loc)}
+}
+
 // SOA builds a 'Z' line.
 func SOA(zone, loc string) Line {
 	return Line{Text: fmt.Sprintf("Z%s,a.ns.example.com,hostmaster.example.com,1,7200,1800,604800,120,300,,%s", zone, loc), Loc: loc,
@@ -165,6 +173,8 @@ type Item struct {
 	Quick bool
 	// ECSMap: the item declares a client-subnet ('8') map, ECS clients are added.
 	ECSMap bool
+	// XLoc: the item puts resolvers into the locations XLocations; those clients are added.
+	XLoc bool
 	// MayLocate lists (client id -> location) assignments this item can cause
 	// in addition to the skeleton's; used only to decide conservatively
 	// whether an edit is foreign to a client (C04).
@@ -175,6 +185,33 @@ type Item struct {
 
 // Locations used by the alphabet.
 var Locations = []string{"aa", "bb", "cc"}
+
+// Location ids outside [a-z][a-z], in the text form a data file holds them in
+// (a location id is any two bytes). Each is the twin of another id of the
+// alphabet under some byte transformation a key builder or a lookup could apply
+// by mistake, or looks like another part of a key.
+const (
+	LocUp  = "AA"         // ASCII upper case twin of aa
+	LocHi  = `\341\341` // aa with the high bits set; not valid UTF-8
+	LocNul = `\000\001` // leading NUL: twin of "untagged" (\000\000) when only the first byte is looked at, and the byte that ends a name
+	LocSep = `\003\054` // a byte that reads as a label length, and the field separator ','
+)
+
+// XLocations are the ids above.
+var XLocations = []string{LocUp, LocHi, LocNul, LocSep}
+
+// AllLocations is Locations + XLocations.
+func AllLocations() []string { return append(append([]string(nil), Locations...), XLocations...) }
+
+// LocSlug renders a location id for fingerprints and edit ids: [A-Za-z0-9] as
+// they are, every other byte of the text form dropped except octal digits
+// (\341\341 -> o341341).
+func LocSlug(loc string) string {
+	if !strings.Contains(loc, `\`) {
+		return loc
+	}
+	return "o" + strings.ReplaceAll(loc, `\`, "")
+}
 
 // Skeleton is present in every file: the apex of example.com (explicit SOA and
 // NS form), the location plumbing, and one address per location at a probe
@@ -202,9 +239,14 @@ const (
 	ClEcsA = "8.8.8.8~ecs=10.1.1.0-24"
 	ClEcsB = "8.8.8.8~ecs=192.168.1.0-24"
 	ClEcs6 = "8.8.8.8~ecs=2001:db8::-56"
+	// resolvers that item xloc puts into the locations XLocations
+	ClXUp  = "172.16.1.1"
+	ClXHi  = "172.17.1.1"
+	ClXNul = "172.18.1.1"
+	ClXSep = "172.19.1.1"
 )
 
-var allClients = []string{ClAA, ClBB, ClNone, ClV6, ClEcsA, ClEcsB, ClEcs6}
+var allClients = []string{ClAA, ClBB, ClNone, ClV6, ClEcsA, ClEcsB, ClEcs6, ClXUp, ClXHi, ClXNul, ClXSep}
 
 func everyClient(loc string) map[string][]string {
 	m := map[string][]string{}
@@ -273,6 +315,44 @@ func Items() []Item {
 		{ID: "rootns", Quick: true, Core: true, Why: "35 root delegation (also: a root-owned record next to the range points on v1 keys)",
 			Lines: []Line{NS("", "", "a.root-servers.net", "3600", "")}, Conflicts: []string{"rootz"}},
 		{ID: "rootz", Why: "35 root zone", Lines: []Line{Dot("", "", "a.root-servers.net", "3600", "")}},
+		// 36: one owner and type both tagged and untagged (whatever keeps the first match is sensitive to the order
+		// "location, then untagged"), and zone-cut data split between a location and the untagged set
+		{ID: "soaaa", Quick: true, Core: true, Why: "36 second SOA at the apex, tagged aa and different in every field: negative answers of an aa client carry it",
+			Lines: []Line{SOA2("example.com", "aa")}},
+		{ID: "nsaa", Quick: true, Core: true, Why: "36 NS at the apex tagged aa: for an aa client the apex is made of a tagged NS and the untagged SOA and NS",
+			Lines: []Line{NS("example.com", "", "nsaa.other.org", "3600", "aa")}},
+		{ID: "subsoaaa", Quick: true, Why: "36 SOA at sub tagged aa (with 12: second SOA; with subns: cut split between aa and untagged; alone: SOA without NS)",
+			Lines: []Line{SOA2("sub.example.com", "aa")}},
+		{ID: "subnsaa", Quick: true, Why: "36 NS at sub tagged aa (with 12: tagged NS next to untagged SOA+NS; with subsoa: split cut; alone: delegation for aa only)",
+			Lines: []Line{NS("sub.example.com", "", "nsaa.other.org", "3600", "aa")}},
+		{ID: "subsoa", Why: "36 untagged SOA at sub without NS", Lines: []Line{SOA("sub.example.com", "")}, Conflicts: []string{"sub"}},
+		{ID: "subns", Why: "36 untagged NS at sub without SOA: a delegation, with subsoaaa a zone for aa only",
+			Lines: []Line{NS("sub.example.com", "192.0.2.56", "ns.sub.example.com", "3600", "")}},
+		{ID: "cndup", Why: "36 CNAME both untagged and tagged aa", Conflicts: []string{"cn"},
+			Lines: []Line{CNAME("c.example.com", "www.example.com", "300", ""), CNAME("c.example.com", "a.example.com", "300", "aa")}},
+		{ID: "wildapexaa", Why: "36 apex wildcard tagged aa (with 10: both)", Lines: []Line{TXT("*.example.com", "wildaa", "300", "aa")}},
+		// 37: maps on the root and on a top level domain
+		{ID: "mrootw", Quick: true, Core: true, Why: "37 catch-all resolver map (root wildcard): applies to every name without a closer map",
+			Lines:     []Line{Map('M', "*.", "r1"), Net("bb", "10.0.0.0/8", "r1"), Net("aa", "192.168.0.0/16", "r1")},
+			MayLocate: map[string][]string{ClAA: {"bb"}, ClEcsA: {"bb"}, ClBB: {"aa"}, ClEcsB: {"aa"}}},
+		{ID: "8rootw", Quick: true, Core: true, ECSMap: true, Why: "37 catch-all client-subnet map (root wildcard)",
+			Lines:     []Line{Map('8', "*.", "e9"), Net("bb", "10.0.0.0/8", "e9"), Net("aa", "2001:db8::/32", "e9")},
+			MayLocate: map[string][]string{ClEcsA: {"bb"}, ClEcs6: {"aa"}}},
+		{ID: "mroot", Why: "37 exact resolver map on the root: applies to the root only",
+			Lines:     []Line{Map('M', ".", "r2"), Net("bb", "10.0.0.0/8", "r2")},
+			MayLocate: map[string][]string{ClAA: {"bb"}, ClEcsA: {"bb"}}},
+		{ID: "mcomw", Why: "37 wildcard resolver map on the top level domain",
+			Lines:     []Line{Map('M', "*.com", "r3"), Net("bb", "10.0.0.0/8", "r3")},
+			MayLocate: map[string][]string{ClAA: {"bb"}, ClEcsA: {"bb"}}},
+		// 38: location ids outside [a-z][a-z]
+		{ID: "xloc", Quick: true, XLoc: true, Why: "38 resolvers in the locations AA, \\341\\341, \\000\\001, \\003\\054 and one probe address for each",
+			Lines: []Line{Net(LocUp, "172.16.0.0/16", "m1"), Net(LocHi, "172.17.0.0/16", "m1"), Net(LocNul, "172.18.0.0/16", "m1"), Net(LocSep, "172.19.0.0/16", "m1"),
+				A("probe.example.com", "192.0.2.104", "300", LocUp, ""), A("probe.example.com", "192.0.2.105", "300", LocHi, ""),
+				A("probe.example.com", "192.0.2.106", "300", LocNul, ""), A("probe.example.com", "192.0.2.107", "300", LocSep, "")}},
+		{ID: "na_AA", Why: "38 a tagged AA: its v2 key sorts between the untagged and the aa key of the name", Lines: []Line{A("a.example.com", "192.0.2.89", "300", LocUp, "")}},
+		{ID: "na_01", Why: "38 a tagged \\000\\001", Lines: []Line{A("a.example.com", "192.0.2.91", "300", LocNul, "")}},
+		// 39: an owner 13 labels below the apex, sibling of a queried name
+		{ID: "deepsib", Why: "39 deep owner: sibling of the 12-label-deep query name under w", Lines: []Line{A("k."+Deep(11, "w.example.com"), "192.0.2.92", "300", "", "")}},
 	}
 	seen := map[string]bool{}
 	for _, x := range it {
@@ -299,7 +379,11 @@ type File struct {
 	IDs    []string // sorted item ids
 	Lines  []Line
 	HasECS bool
+	HasX   bool
 }
+
+// Clients are the clients that query this file.
+func (f *File) Clients() []Client { return ClientsX(f.HasECS, f.HasX) }
 
 // Key is the canonical name of the item set ("-" for the empty set).
 func (f *File) Key() string {
@@ -331,6 +415,9 @@ func Build(items []Item, sel []int) *File {
 		f.IDs = append(f.IDs, items[i].ID)
 		if items[i].ECSMap {
 			f.HasECS = true
+		}
+		if items[i].XLoc {
+			f.HasX = true
 		}
 	}
 	sort.Strings(f.IDs)
@@ -439,10 +526,49 @@ func AmbiguousTargets(lines []Line, locs []string) map[string]bool {
 	return out
 }
 
+// Deep is the name n labels below zone: l<n>.l<n-1>. ... .l1.zone.
+func Deep(n int, zone string) string {
+	var sb strings.Builder
+	for i := n; i >= 1; i-- {
+		fmt.Fprintf(&sb, "l%d.", i)
+	}
+	return sb.String() + zone
+}
+
+// DeepNames are query names with many labels (every per-label loop of the
+// lookup code runs far more often than for any owner of the alphabet): 12
+// labels below the apex (and so below the owner of the skeleton's wildcard
+// map), below the wildcard under w, below the nested zone and below the
+// delegation.
+func DeepNames() []string {
+	return []string{Deep(12, "example.com"), Deep(12, "w.example.com"), Deep(12, "sub.example.com"), Deep(12, "deleg.example.com")}
+}
+
+// VeryDeepNames are asked for VeryDeepQTypes only: 32 labels below w, an
+// ip6.arpa name (34 labels, outside every zone but the root's), the name with
+// the most labels a 255-octet name can have below w (120 one-letter labels) and
+// a 255-octet name of 63-octet labels below w.
+func VeryDeepNames() []string {
+	l63 := func(c string) string { return strings.Repeat(c, 63) }
+	return []string{
+		Deep(32, "w.example.com"),
+		"b.a.9.8.7.6.5.0.4.0.0.0.3.0.0.0.2.0.0.0.1.0.0.0.0.0.0.0.1.2.3.4.ip6.arpa",
+		strings.Repeat("z.", 120) + "w.example.com",
+		l63("p") + "." + l63("q") + "." + l63("r") + "." + strings.Repeat("s", 47) + ".w.example.com",
+	}
+}
+
+// VeryDeepQTypes are the query types of VeryDeepNames.
+func VeryDeepQTypes() []uint16 { return []uint16{dns.TypeA, dns.TypeTXT} }
+
 // Names is the closed query-name universe (DESIGN section 2): every owner of the
 // alphabet, every ancestor, fresh siblings, the under-wildcard names, an
-// out-of-zone name and two upper-case variants.
+// out-of-zone name, two upper-case variants and DeepNames.
 func Names() []string {
+	return append(shallowNames(), DeepNames()...)
+}
+
+func shallowNames() []string {
 	return []string{
 		".", "com", "example.com",
 		"www.example.com", "c.example.com", "nx.example.com", "txt.example.com", "probe.example.com",
@@ -475,6 +601,20 @@ type Client struct {
 	// Nominal is the location the skeleton's plumbing (plus the ECS map item,
 	// for ECS clients) assigns: "none", "aa" or "bb".
 	Nominal string
+}
+
+// ClientsX is Clients plus, when withX, the resolvers of the locations XLocations.
+func ClientsX(withECS, withX bool) []Client {
+	c := Clients(withECS)
+	if withX {
+		c = append(c,
+			Client{ID: ClXUp, Resolver: ClXUp, Nominal: LocUp},
+			Client{ID: ClXHi, Resolver: ClXHi, Nominal: LocHi},
+			Client{ID: ClXNul, Resolver: ClXNul, Nominal: LocNul},
+			Client{ID: ClXSep, Resolver: ClXSep, Nominal: LocSep},
+		)
+	}
+	return c
 }
 
 // Clients returns the resolver clients and, when withECS, the ECS variants.
